@@ -5,7 +5,6 @@ From UV Require Import RoundSpec RoundNE PositMono2 PositSpec Num PositModel Pos
 Import ListNotations.
 Local Open Scope Z_scope.
 
-Definition b2z (b : bool) : Z := if b then 1 else 0.
 
 Definition p_exact_result (n es op a b : Z) : option Q :=
   match pval n es a, pval n es b with
